@@ -150,6 +150,36 @@ func ReplayLocal(base int, evs []LEv, rnd *rand.Rand) ([]LLine, error) {
 			select {
 			case <-inner.started:
 				ln.Hit = false
+				if e.Op == "ask" && e.Hit {
+					// the behaviour expects the cache to answer, the implementation asks the directory instead (it is
+					// free not to keep an answer): let the directory answer now and record the question as a whole
+					inner.mu.Lock()
+					chs := inner.release[tok]
+					if len(chs) > 0 {
+						inner.release[tok] = chs[1:]
+					}
+					inner.mu.Unlock()
+					if len(chs) == 0 {
+						ln.Note = "provider call vanished"
+						break
+					}
+					chs[0] <- false
+					select {
+					case <-inner.acks:
+					case <-time.After(stepWait):
+						ln.Note = "provider call did not finish"
+					}
+					select {
+					case r := <-ch:
+						ln.Err = r.err != nil
+						if r.ans != nil {
+							ln.Ans = sorted(r.ans)
+						}
+					case <-time.After(stepWait):
+						ln.Note = "call did not return"
+					}
+					break
+				}
 				pending[e.T] = ch
 			case r := <-ch:
 				ln.Hit = true
